@@ -32,7 +32,12 @@ class NumericValues:
         if k[0] == "R":
             return sqrt(k[1])
         if k[0] == "I":
-            den = sum(Rational(c) * self.var(x) for x, c in k[1])
+            den = S.Zero
+            for m, c in k[1]:
+                t = Rational(c)
+                for x in m:
+                    t *= self.var(x)
+                den += t
             if den == 0:
                 raise ZeroDivisionError("pole")
             return 1 / den
@@ -93,7 +98,10 @@ def _eval_obj(o, model, valuation, numeric, asg):
         return o
     if isinstance(o, Mul):
         r = S.One
-        for a in o.args:
+        # numerators first: a structurally vanishing numerator (e.g. an antisymmetric
+        # tensor with two equal indices) makes the term zero whatever its denominator
+        args = sorted(o.args, key=lambda a: isinstance(a, Pow) and a.args[1].is_negative)
+        for a in args:
             r *= _eval_obj(a, model, valuation, numeric, asg)
             if r == 0:
                 return S.Zero
